@@ -115,6 +115,7 @@ class Fn:
         self.rets = []       # (insn, State)
         self.calls = []      # (insn, callee, State before, [arg forms])
         self.widened = set()
+        self.store_hook = None
         self.lost = []       # reasons why precision was lost
         back = set()
         # back edges by DFS
@@ -386,6 +387,8 @@ class Fn:
             if fld:
                 st.F[fld] = self.form(st, i.ops[0])
             else:
+                if self.store_hook is not None:
+                    self.store_hook(i, st)
                 st.epoch = (st.epoch[0], st.epoch[1] + 1)
             return
         if op == 'call':
@@ -642,3 +645,75 @@ def check(rep, kind, floor, offz, offi, mod, only=None, suffix=None):
                 R.check(not sub, mod.where(a.f, i), '%s calls %s with arguments for which the callee leaves the %s counters out of step by %s (it needs %s = 0)' % (fn, cal, k[0], fmt(sub), fmt(d)),
                         key='R-ACCT|call|%s|%s|%s' % (fn, cal, k[1]), sample='%s -> %s: %s = 0 holds' % (fn, cal, fmt(d)))
     R.notes.append('%d functions analysed' % nfun)
+
+
+def _nonneg_ge1(form, st, depth=0):
+    """form >= 1 for unsigned quantities: a positive constant plus non-negative atoms, or a form known to be non-zero on this path"""
+    if not form:
+        return False
+    if all(c > 0 for c in form.values()) and form.get(1, 0) >= 1:
+        return True
+    k = ('eq',) + tuple(sorted([canon(form), canon({})], key=str))
+    if st.preds.get(k) is False:
+        return True
+    return False
+
+
+def avail_ge1(st, A):
+    """is the form A (an unsigned amount of space) provably >= 1 from the branch decisions taken on this path?"""
+    if _nonneg_ge1(A, st):
+        return True
+    ca = canon(A)
+    for key, pol in st.preds.items():
+        if key[0] == 'ult':
+            x, y = key[1], key[2]
+            if y == ca and pol is True:          # x < A
+                return True
+            if x == ca and pol is False:         # A >= y
+                if _nonneg_ge1(dict(y), st):
+                    return True
+        elif key[0] == 'eq' and ca in key[1:] and canon({}) in key[1:] and pol is False:
+            return True
+    return False
+
+
+def check_direct_out(rep, mod, offz, floor):
+    """every direct (non-memcpy) store through the pointer held in next_out must be covered by avail_out >= 1 on every path that reaches it"""
+    R = rep.rule('R-OUT-DIRECT', 'compression side: every direct store through the pointer loaded from stream->next_out (byte patches of an already copied header) executes only on paths on which the branch decisions taken '
+                 'imply avail_out - (offset of the store) >= 1 (path-sensitive: the clipped copy count, its non-zero test and the space tests are remembered as predicates over linear forms)', floor=floor, unit='direct stores')
+    MODSETS.update(modsets(mod, offz, offz))
+    n = 0
+    for fn, f in sorted(mod.funcs.items()):
+        pidx, kind = stream_param(f)
+        if kind != 'z' or not f.order or fn.startswith(('isal_write_gzip_header', 'isal_write_zlib_header')):
+            continue
+        P = irrules.prov(mod, f)
+        sites = [i for i in f.all_insns() if i.op == 'store' and any(a[0] == 'ld' and a[1] == ('param', pidx, offz['next_out']) for a in P.atoms(i.ops[1]))]
+        if not sites:
+            continue
+        a = Fn(mod, f, pidx, kind, offz)
+        seen = {}
+
+        def hook(i, st, a=a, seen=seen, sites=sites):
+            if i in sites:
+                # the address: next_out form + constant offset
+                pf = a.form(st, i.ops[1])
+                off = add(pf, st.F['next_out'], -1)
+                ok = set(off) <= {1} and off.get(1, 0) >= 0 and avail_ge1(st, add(st.F['avail_out'], lf(None, off.get(1, 0)), -1))
+                seen.setdefault(id(i), [i, True, None])
+                if not ok:
+                    seen[id(i)][1] = False
+                    seen[id(i)][2] = 'avail_out = %s, store at next_out + %s, decisions on the path: %d' % (fmt(st.F['avail_out']), fmt(off), len(st.preds))
+        a.store_hook = hook
+        a.run()
+        for i in sites:
+            n += 1
+            R.instance()
+            rec = seen.get(id(i))
+            if rec is None:
+                R.fail(mod.where(f, i), '%s: direct store through next_out is unreachable in the analysis' % fn, key='R-OUT-DIRECT|%s|%d' % (fn, i.line or 0))
+            else:
+                R.check(rec[1], mod.where(f, i), '%s: a path reaches this store through next_out without a decision that implies one byte of output space is left (%s): it writes beyond avail_out' % (fn, rec[2]),
+                        key='R-OUT-DIRECT|%s|%d' % (fn, i.line or 0), sample='%s: store covered by avail_out >= 1' % fn)
+    if n == 0:
+        raise AnalysisBroken('R-OUT-DIRECT: no direct store through next_out found')
